@@ -3,7 +3,7 @@
    proposal with one transaction it does not hold, and asks the application for it.  Everything is computed with the
    executable model (vm_compute). *)
 From Coq Require Import ZArith List.
-From DbftV Require Import Gates NoPanic P10 P12.
+From DbftV Require Import Gates NoPanic P10 P12 Replay D1.
 Open Scope Z_scope.
 
 Definition cfg0 := mkCfg 1 (-1) false.
@@ -64,3 +64,11 @@ Definition sc0w : list call :=
   [CPrevHash []; CHeight 0; CValidators [10;11;12;13]; CTimePerBlock 1000; CKeyPair 2 12; CWatchOnly true; CStopTxFlow; CWatchOnly true].
 Example watch_only_start_runs : exists st tr, step cfg0 fresh_state (EStart 0) sc0w = Ok (st, tr) /\ length tr = 8%nat.
 Proof. vm_compute. eexists. eexists. split; reflexivity. Qed.
+
+(* the hypothesis of the C02 theorems is met by a history in which a block is handed over (the recorded history of Witness/D1.v) *)
+Example a_block_is_handed_over_in_some_history :
+  exists cfg st ev sc st' tr s h e, Reach cfg st /\ step cfg st ev sc = Ok (st', tr) /\ In (s, CProcessBlock h e) tr.
+Proof.
+  destruct (refutes_sound d1_cfg d1 d1_refutes) as (st & ev & sc & st' & tr & s & HR & Hs & Hin & _).
+  destruct (handed_over_in tr s Hin) as (h & e & Hi). exists d1_cfg, st, ev, sc, st', tr, s, h, e. auto.
+Qed.
